@@ -1004,7 +1004,9 @@ class RZILTransformer(Transformer):
                 raise NotImplementedError(
                     "Operations with side effects in a loop condition are not supported."
                 )
-        return self.chk_hybrid_dep(self.add_op(Sequence(f"seq", [items[1], loop])))
+        return self.chk_hybrid_dep(
+            self.add_op(Sequence(f"seq", flatten_list([items[1]]) + [loop]))
+        )
 
     def iteration_stmt(self, items):
         self.ext.set_token_meta_data("iteration_stmt")
